@@ -100,22 +100,31 @@ fn exec(problem: &P, state: &mut State<'static, P>, a: &Value) -> Value {
                 })
             }),
         ),
-        "peek" => opt_pop(problem, true, caught(|| Some(proj_pop(problem, state.populations().peek(n as usize))))),
+        "peek" => opt_pop(problem, true, caught(|| Some(proj_pop(problem, state.populations().peek(depth(n)))))),
         "try_peek" => {
-            opt_pop(problem, false, caught(|| state.populations().try_peek(n as usize).map(|p| proj_pop(problem, p))))
+            opt_pop(problem, false, caught(|| state.populations().try_peek(depth(n)).map(|p| proj_pop(problem, p))))
         }
-        "rotate" => match caught(|| state.populations_mut().rotate(n as usize)) {
+        "rotate" => match caught(|| state.populations_mut().rotate(depth(n))) {
             Ok(()) => r("ok", json!([]), NOVAL),
             Err(_) => r("panic", json!([]), NOVAL),
         },
         "len" => r("ok", json!([]), state.populations().len() as i64),
         "is_empty" => r("ok", json!([]), state.populations().is_empty() as i64),
-        "c_rotate" => comp(problem, state, RotatePopulations::new(n as usize)),
+        "c_rotate" => comp(problem, state, RotatePopulations::new(depth(n))),
         "c_clear" => comp(problem, state, ClearPopulation::new()),
         "c_duplicate" => comp(problem, state, DuplicatePopulation::new()),
         "c_interleave" => comp(problem, state, InterleavePopulations::new()),
         "c_split" => comp(problem, state, SplitPopulationByObjectiveValue::new()),
         other => panic!("unknown op {other}"),
+    }
+}
+
+/// depths / counts of the model; its `Huge` stands for the largest value the type admits
+fn depth(n: i64) -> usize {
+    if n >= 1_000_000 {
+        usize::MAX
+    } else {
+        n as usize
     }
 }
 
@@ -140,7 +149,8 @@ fn random_act(rng: &mut impl Rng, state: &State<P>, ntags: u32) -> Value {
                 json!([]),
                 rng.gen_range(0..ntags) as i64,
             ),
-            44..=57 => act(if rng.gen_bool(0.5) { "peek" } else { "try_peek" }, json!([]), rng.gen_range(0..=h + 1)),
+            44..=56 => act(if rng.gen_bool(0.5) { "peek" } else { "try_peek" }, json!([]), rng.gen_range(0..=h + 1)),
+            57 => act(["peek", "try_peek", "rotate", "c_rotate"][rng.gen_range(0..4)], json!([]), 1_000_000),
             58..=75 => act(if rng.gen_bool(0.5) { "rotate" } else { "c_rotate" }, json!([]), rng.gen_range(1..=h + 1)),
             76..=79 => act(if rng.gen_bool(0.5) { "len" } else { "is_empty" }, json!([]), NOVAL),
             80..=84 if h >= 1 => act("c_clear", json!([]), NOVAL),
@@ -153,14 +163,26 @@ fn random_act(rng: &mut impl Rng, state: &State<P>, ntags: u32) -> Value {
     }
 }
 
-fn fresh_state() -> State<'static, P> {
+/// a new stack, made by one of the public ways to make one (chosen by the run number)
+fn fresh_state(run: u64) -> State<'static, P> {
     let mut state = State::new();
-    state.insert(Populations::<P>::new());
+    match run % 3 {
+        0 => {
+            state.insert(Populations::<P>::new());
+        }
+        1 => {
+            state.insert(Populations::<P>::default());
+        }
+        _ => {
+            state.entry::<Populations<P>>().or_default();
+        }
+    }
     state
 }
 
-fn reset_rec(run: u64) -> Value {
-    json!({"run": run, "act": act("reset", json!([]), NOVAL), "res": r("ok", json!([]), NOVAL), "stack": []})
+/// the reset record shows what the new stack really looks like (the model says: empty, however it was made)
+fn reset_rec(run: u64, problem: &P, state: &State<P>) -> Value {
+    json!({"run": run, "act": act("reset", json!([]), (run % 3) as i64), "res": r("ok", json!([]), NOVAL), "stack": proj_stack(problem, state)})
 }
 
 pub fn main(args: &Args) -> usize {
@@ -170,8 +192,8 @@ pub fn main(args: &Args) -> usize {
         "replay" => {
             for sc in read_ndjson(&args.str("in")) {
                 let run = sc["run"].as_u64().unwrap();
-                let mut state = fresh_state();
-                out.emit(&reset_rec(run));
+                let mut state = fresh_state(run);
+                out.emit(&reset_rec(run, &problem, &state));
                 for (i, a) in sc["acts"].as_array().unwrap().iter().enumerate() {
                     let res = exec(&problem, &mut state, a);
                     out.emit(&json!({"run": run, "i": i, "act": a, "res": res, "stack": proj_stack(&problem, &state)}));
@@ -184,8 +206,8 @@ pub fn main(args: &Args) -> usize {
             let ntags = args.num("tags", 6) as u32;
             for run in 0..runs {
                 let mut rng = rng(args.seed(), run);
-                let mut state = fresh_state();
-                out.emit(&reset_rec(run));
+                let mut state = fresh_state(run);
+                out.emit(&reset_rec(run, &problem, &state));
                 for i in 0..len {
                     let a = random_act(&mut rng, &state, ntags);
                     let res = exec(&problem, &mut state, &a);
